@@ -173,3 +173,408 @@ class DeflatePeer:
         if self.cnt:
             self._d = None
         return out
+
+
+# ---------------------------------------------------------------------------------------------
+# RFC 1951 from scratch (independent of zlib and of the Lean model): a raw inflater that logs
+# the LZ77 tokens it meets (so the largest match distance of a stream can be measured), and a
+# small raw *encoder* for hand-made token streams (fixed / dynamic / stored blocks) used to
+# build streams zlib itself never produces (distances at the edge of the window, odd codes).
+
+class InflateError(Exception):
+    pass
+
+
+class _EOI(Exception):
+    pass
+
+
+_LBASE = [3, 4, 5, 6, 7, 8, 9, 10, 11, 13, 15, 17, 19, 23, 27, 31, 35, 43, 51, 59, 67, 83, 99, 115, 131, 163, 195, 227, 258]
+_LEXT = [0, 0, 0, 0, 0, 0, 0, 0, 1, 1, 1, 1, 2, 2, 2, 2, 3, 3, 3, 3, 4, 4, 4, 4, 5, 5, 5, 5, 0]
+_DBASE = [1, 2, 3, 4, 5, 7, 9, 13, 17, 25, 33, 49, 65, 97, 129, 193, 257, 385, 513, 769, 1025, 1537, 2049, 3073, 4097,
+          6145, 8193, 12289, 16385, 24577]
+_DEXT = [0, 0, 0, 0, 1, 1, 2, 2, 3, 3, 4, 4, 5, 5, 6, 6, 7, 7, 8, 8, 9, 9, 10, 10, 11, 11, 12, 12, 13, 13]
+_CLORDER = [16, 17, 18, 0, 8, 7, 9, 6, 10, 5, 11, 4, 12, 3, 13, 2, 14, 1, 15]
+
+
+def _rev(code, n):
+    r = 0
+    for _ in range(n):
+        r = (r << 1) | (code & 1)
+        code >>= 1
+    return r
+
+
+def canonical_codes(lens):
+    """RFC 1951 3.2.2: symbol -> (code, length) for the non-zero lengths"""
+    maxl = max(lens) if lens else 0
+    bl = [0] * (maxl + 2)
+    for l in lens:
+        if l:
+            bl[l] += 1
+    code, nxt = 0, [0] * (maxl + 2)
+    for b in range(1, maxl + 1):
+        code = (code + bl[b - 1]) << 1 if b > 1 else 0
+        nxt[b] = code
+    out = {}
+    for s, l in enumerate(lens):
+        if l:
+            out[s] = (nxt[l], l)
+            nxt[l] += 1
+    return out
+
+
+class _Dec:
+    """prefix-code decoder: table over `root` peeked bits, dictionary for longer codes"""
+
+    def __init__(self, lens):
+        self.codes = canonical_codes(lens)
+        self.maxl = max(lens) if lens else 0
+        self.root = min(self.maxl, 9)
+        self.table = [None] * (1 << self.root) if self.root else []
+        self.long = {}
+        for s, (c, l) in self.codes.items():
+            r = _rev(c, l)
+            if l <= self.root:
+                for hi in range(1 << (self.root - l)):
+                    self.table[r | (hi << l)] = (s, l)
+            else:
+                self.long[(r, l)] = s
+
+
+class _BitReader:
+    def __init__(self, data):
+        self.d, self.n, self.i, self.buf, self.cnt = data, len(data), 0, 0, 0
+
+    def need(self, k):
+        while self.cnt < k:
+            if self.i >= self.n:
+                return False
+            self.buf |= self.d[self.i] << self.cnt
+            self.i += 1
+            self.cnt += 8
+        return True
+
+    def get(self, k):
+        if not self.need(k):
+            raise _EOI()
+        v = self.buf & ((1 << k) - 1)
+        self.buf >>= k
+        self.cnt -= k
+        return v
+
+    def sym(self, dec):
+        if dec.maxl == 0:
+            raise InflateError('empty code used')
+        self.need(dec.maxl)
+        e = dec.table[self.buf & ((1 << dec.root) - 1)] if dec.root else None
+        if e is not None:
+            s, l = e
+            if l > self.cnt:
+                raise _EOI()
+            self.buf >>= l
+            self.cnt -= l
+            return s
+        for l in range(dec.root + 1, dec.maxl + 1):
+            if l > self.cnt:
+                raise _EOI()
+            s = dec.long.get((self.buf & ((1 << l) - 1), l))
+            if s is not None:
+                self.buf >>= l
+                self.cnt -= l
+                return s
+        if self.cnt < dec.maxl:
+            raise _EOI()
+        raise InflateError('invalid code')
+
+    def align(self):
+        k = self.cnt % 8
+        self.buf >>= k
+        self.cnt -= k
+
+
+_FIXED_LIT = None
+_FIXED_DIST = None
+
+
+def inflate_log(data, window=b'', max_window=None):
+    """Inflate the complete raw-deflate blocks in `data`, with `window` as preceding history.
+       Returns dict(out=bytes, max_dist=int, matches=int, literals=int, final=bool, blocks=[types]).
+       Raises InflateError (also when the data ends inside a block).  `max_window`: fail on a
+       distance greater than it."""
+    global _FIXED_LIT, _FIXED_DIST
+    if _FIXED_LIT is None:
+        _FIXED_LIT = _Dec([8] * 144 + [9] * 112 + [7] * 24 + [8] * 8)
+        _FIXED_DIST = _Dec([5] * 32)
+    br = _BitReader(data)
+    hist = bytearray(window)
+    base = len(hist)
+    max_dist = matches = literals = 0
+    final = False
+    types = []
+    try:
+        while True:
+            if br.cnt == 0 and br.i >= br.n:
+                break
+            hdr = br.get(3)
+            last, typ = hdr & 1, hdr >> 1
+            types.append(typ)
+            if typ == 0:
+                br.align()
+                ln = br.get(16)
+                nl = br.get(16)
+                if ln ^ nl != 0xffff:
+                    raise InflateError('stored lengths')
+                for _ in range(ln):
+                    hist.append(br.get(8))
+                literals += ln
+            elif typ == 3:
+                raise InflateError('block type 3')
+            else:
+                if typ == 1:
+                    lit, dist = _FIXED_LIT, _FIXED_DIST
+                else:
+                    nlen, ndist, ncode = br.get(5) + 257, br.get(5) + 1, br.get(4) + 4
+                    if nlen > 286 or ndist > 30:
+                        raise InflateError('too many symbols')
+                    cl = [0] * 19
+                    for k in range(ncode):
+                        cl[_CLORDER[k]] = br.get(3)
+                    cld = _Dec(cl)
+                    lens = []
+                    while len(lens) < nlen + ndist:
+                        s = br.sym(cld)
+                        if s < 16:
+                            lens.append(s)
+                        elif s == 16:
+                            if not lens:
+                                raise InflateError('repeat at start')
+                            lens += [lens[-1]] * (3 + br.get(2))
+                        elif s == 17:
+                            lens += [0] * (3 + br.get(3))
+                        else:
+                            lens += [0] * (11 + br.get(7))
+                    if len(lens) > nlen + ndist:
+                        raise InflateError('repeat overflow')
+                    lit, dist = _Dec(lens[:nlen]), _Dec(lens[nlen:])
+                while True:
+                    s = br.sym(lit)
+                    if s < 256:
+                        hist.append(s)
+                        literals += 1
+                    elif s == 256:
+                        break
+                    else:
+                        if s >= 286:
+                            raise InflateError('invalid length symbol')
+                        ln = _LBASE[s - 257] + br.get(_LEXT[s - 257])
+                        ds = br.sym(dist)
+                        if ds >= 30:
+                            raise InflateError('invalid distance symbol')
+                        d = _DBASE[ds] + br.get(_DEXT[ds])
+                        if d > len(hist) or (max_window is not None and d > max_window):
+                            raise InflateError('distance too far back')
+                        matches += 1
+                        if d > max_dist:
+                            max_dist = d
+                        start = len(hist) - d
+                        if d >= ln:
+                            hist += hist[start:start + ln]
+                        else:
+                            for k in range(ln):
+                                hist.append(hist[start + k])
+            if last:
+                final = True
+                break
+    except _EOI:
+        raise InflateError('data ends inside a block')
+    return dict(out=bytes(hist[base:]), max_dist=max_dist, matches=matches, literals=literals, final=final, blocks=types)
+
+
+class BitWriter:
+    def __init__(self):
+        self.buf, self.cnt, self.out = 0, 0, bytearray()
+
+    def put(self, v, n):
+        """n bits of v, least significant first (header fields, extra bits)"""
+        self.buf |= (v & ((1 << n) - 1)) << self.cnt
+        self.cnt += n
+        while self.cnt >= 8:
+            self.out.append(self.buf & 0xff)
+            self.buf >>= 8
+            self.cnt -= 8
+
+    def code(self, c, n):
+        """a Huffman code: most significant bit first"""
+        self.put(_rev(c, n), n)
+
+    def align(self):
+        if self.cnt:
+            self.put(0, 8 - self.cnt)
+
+    def bytes(self):
+        assert self.cnt == 0
+        return bytes(self.out)
+
+
+def _len_sym(ln):
+    for i in range(28, -1, -1):
+        if ln >= _LBASE[i]:
+            if i == 28 or ln < _LBASE[i] + (1 << _LEXT[i]):
+                return 257 + i, ln - _LBASE[i], _LEXT[i]
+    raise ValueError(ln)
+
+
+def _dist_sym(d):
+    for i in range(29, -1, -1):
+        if d >= _DBASE[i]:
+            return i, d - _DBASE[i], _DEXT[i]
+    raise ValueError(d)
+
+
+def put_tokens(bw, tokens, litcodes, distcodes):
+    """tokens: ints (literals) or (dist, len) pairs; followed by end-of-block"""
+    for t in tokens:
+        if isinstance(t, int):
+            bw.code(*litcodes[t])
+        else:
+            d, ln = t
+            s, e, n = _len_sym(ln)
+            bw.code(*litcodes[s])
+            bw.put(e, n)
+            ds, de, dn = _dist_sym(d)
+            bw.code(*distcodes[ds])
+            bw.put(de, dn)
+    bw.code(*litcodes[256])
+
+
+def put_fixed_block(bw, tokens, final=False):
+    bw.put(1 if final else 0, 1)
+    bw.put(1, 2)
+    put_tokens(bw, tokens, canonical_codes([8] * 144 + [9] * 112 + [7] * 24 + [8] * 8), canonical_codes([5] * 32))
+
+
+def put_stored_block(bw, data, final=False):
+    bw.put(1 if final else 0, 1)
+    bw.put(0, 2)
+    bw.align()
+    bw.put(len(data), 16)
+    bw.put(len(data) ^ 0xffff, 16)
+    for b in data:
+        bw.put(b, 8)
+
+
+def huff_lengths(freq, limit):
+    """code lengths for the symbols with freq > 0 (Kraft-complete when >= 2 symbols), max `limit`"""
+    import heapq
+    syms = [s for s, f in enumerate(freq) if f]
+    lens = [0] * len(freq)
+    if not syms:
+        return lens
+    if len(syms) == 1:
+        lens[syms[0]] = 1
+        return lens
+    heap = [(freq[s], i, [s]) for i, s in enumerate(syms)]
+    heapq.heapify(heap)
+    k = len(heap)
+    while len(heap) > 1:
+        a = heapq.heappop(heap)
+        b = heapq.heappop(heap)
+        for s in a[2] + b[2]:
+            lens[s] += 1
+        heapq.heappush(heap, (a[0] + b[0], k, a[2] + b[2]))
+        k += 1
+    if max(lens) > limit:
+        # flatten: give every used symbol the same length if that is complete, else a two-length complete code
+        n = len(syms)
+        b = max(1, (n - 1).bit_length())
+        short = (1 << b) - n          # this many symbols can have b-1 bits
+        order = sorted(syms, key=lambda s: -freq[s])
+        for i, s in enumerate(order):
+            lens[s] = b - 1 if i < short else b
+        assert max(lens) <= limit
+    return lens
+
+
+def put_dynamic_header(bw, litlens, distlens, final=False, use_repeats=True, cl_lens=None):
+    """block header of a dynamic block with the given code lengths (trailing zeros trimmed to the
+       minimum counts); the code-length code is built from the symbol frequencies unless given"""
+    nlen = max(257, max([i + 1 for i, l in enumerate(litlens) if l] or [257]))
+    ndist = max(1, max([i + 1 for i, l in enumerate(distlens) if l] or [1]))
+    seq = list(litlens[:nlen]) + [0] * max(0, nlen - len(litlens)) + list(distlens[:ndist]) + [0] * max(0, ndist - len(distlens))
+    syms = []     # (symbol, extra, nbits)
+    i = 0
+    while i < len(seq):
+        v = seq[i]
+        run = 1
+        while i + run < len(seq) and seq[i + run] == v:
+            run += 1
+        if use_repeats and v == 0 and run >= 3:
+            r = min(run, 138)
+            syms.append((17, r - 3, 3) if r <= 10 else (18, r - 11, 7))
+            i += r
+        elif use_repeats and run >= 4:
+            syms.append((v, 0, 0))
+            r = min(run - 1, 6)
+            syms.append((16, r - 3, 2))
+            i += 1 + r
+        else:
+            syms.append((v, 0, 0))
+            i += 1
+    if cl_lens is None:
+        f = [0] * 19
+        for s, _, _ in syms:
+            f[s] += 1
+        if sum(1 for x in f if x) == 1:
+            f[(f.index(max(f)) + 1) % 19] += 1      # a code-length code must be complete
+        cl_lens = huff_lengths(f, 7)
+    ncode = max(4, max(k + 1 for k in range(19) if cl_lens[_CLORDER[k]] or k < 4))
+    bw.put(1 if final else 0, 1)
+    bw.put(2, 2)
+    bw.put(nlen - 257, 5)
+    bw.put(ndist - 1, 5)
+    bw.put(ncode - 4, 4)
+    for k in range(ncode):
+        bw.put(cl_lens[_CLORDER[k]], 3)
+    cc = canonical_codes(cl_lens)
+    for s, e, n in syms:
+        bw.code(*cc[s])
+        if n:
+            bw.put(e, n)
+
+
+def put_dynamic_block(bw, tokens, final=False, use_repeats=True):
+    lf, df = [0] * 286, [0] * 30
+    lf[256] = 1
+    for t in tokens:
+        if isinstance(t, int):
+            lf[t] += 1
+        else:
+            lf[_len_sym(t[1])[0]] += 1
+            df[_dist_sym(t[0])[0]] += 1
+    if sum(1 for x in lf if x) == 1:
+        lf[0] += 1
+    litlens = huff_lengths(lf, 15)
+    distlens = huff_lengths(df, 15)
+    put_dynamic_header(bw, litlens, distlens, final, use_repeats)
+    put_tokens(bw, tokens, canonical_codes(litlens), canonical_codes(distlens))
+
+
+def sync_tail(bw):
+    """the empty stored block a sync flush ends with (`00 00 ff ff` after alignment)"""
+    put_stored_block(bw, b'')
+
+
+def expand_tokens(tokens, window=b''):
+    """what a token list means, given the preceding history"""
+    h = bytearray(window)
+    base = len(h)
+    for t in tokens:
+        if isinstance(t, int):
+            h.append(t)
+        else:
+            d, ln = t
+            assert 0 < d <= len(h)
+            for _ in range(ln):
+                h.append(h[-d])
+    return bytes(h[base:])
